@@ -23,7 +23,7 @@ ID = "C19"
 LEVEL = "fault_enumeration"
 RULE = (
     "histories = (nesting of up to 3 contexts drawn from {pool close, pool no-close+prior, pool close+prior, auto_checkpoint file1 every=1, "
-    "auto_checkpoint file2 every=3, auto_checkpoint file1 again with other options}, action in {nothing, sample, fit} at each of the 2D-1 body positions, exception at one position or none, "
+    "auto_checkpoint file2 every=3, auto_checkpoint file1 again with other options, pool whose join() raises}, action in {nothing, sample, fit} at each of the 2D-1 body positions, exception at one position or none, "
     "kind of exception {raise an Exception, raise a KeyboardInterrupt subclass, fault inside the likelihood while sampling}, instance {fresh, already carrying defaults from resume_from_file, real "
     "ThreadPool}); exhaustive for depth <= 2 (quick) / <= 3 with all single-action bodies (thorough), seeded sample beyond. non-trivial = history with "
     "an exception and depth >= 2, or a sampling action inside a pool context; distinct = the history tuple"
@@ -35,7 +35,7 @@ ASSUMPTIONS = [
 REQUIRED_COUNTERS = ["histories", "context_exits_checked", "exceptions_injected", "pool_close_checks", "samples_inside_pool"]
 EXHAUSTIVE = True
 
-CTX = ["Pc", "Pnp", "Pcp", "K1", "K2", "K1b"]  # K1b: the same file as K1 with other options
+CTX = ["Pc", "Pnp", "Pcp", "K1", "K2", "K1b", "Pf"]  # K1b: the same file as K1 with other options; Pf: a pool whose join() fails
 ACTIONS = ["n", "s", "f"]
 
 
@@ -47,7 +47,13 @@ class Interrupt(KeyboardInterrupt):
     """An exit that is not an Exception subclass (Ctrl-C, SystemExit): contexts must restore on these too."""
 
 
+class TeardownFailed(RuntimeError):
+    """Raised by the failing pool double when the context closes it (a worker died, an executor without join(), ...)."""
+
+
 class PoolDouble:
+    fail_join = False
+
     def __init__(self):
         self.closed = 0
         self.joined = 0
@@ -62,6 +68,8 @@ class PoolDouble:
 
     def join(self):
         self.joined += 1
+        if self.fail_join:
+            raise TeardownFailed("join() failed")
 
     def terminate(self):
         self.closed += 1
@@ -174,9 +182,10 @@ def run_history(h, g, counters, viol, t, data, files):
 
     def make(ctx, level):
         if ctx.startswith("P"):
-            pool = ThreadPool(1) if inst == "threadpool" else PoolDouble()
+            pool = ThreadPool(1) if (inst == "threadpool" and ctx != "Pf") else PoolDouble()
+            pool.fail_join = ctx == "Pf"
             pools[level] = (pool, ctx)
-            return a.enable_pool(pool, close_pool=(ctx in ("Pc", "Pcp")), parallelize_prior=(ctx in ("Pnp", "Pcp")))
+            return a.enable_pool(pool, close_pool=(ctx in ("Pc", "Pcp", "Pf")), parallelize_prior=(ctx in ("Pnp", "Pcp")))
         if ctx == "K1b":
             return a.auto_checkpoint(files["f1"], every=7, save_config=False, save_flow=False)
         return a.auto_checkpoint(files["f1"] if ctx == "K1" else files["f2"], every=1 if ctx == "K1" else 3)
@@ -206,7 +215,7 @@ def run_history(h, g, counters, viol, t, data, files):
             if level in pools:
                 pool, c = pools[level]
                 counters["pool_close_checks"] += 1
-                want = c in ("Pc", "Pcp")
+                want = c in ("Pc", "Pcp", "Pf")
                 if isinstance(pool, PoolDouble):
                     if (pool.closed > 0) != want or (pool.joined > 0) != want:
                         viol.append({"mech": "C19/pool-closed-iff-asked-violated", "detail": f"{where}: context #{level} ({c}): close() called {pool.closed}x, join() {pool.joined}x, close_pool={want}"})
@@ -222,8 +231,15 @@ def run_history(h, g, counters, viol, t, data, files):
     raised = None
     try:
         level_run(0, False)
-    except (Boom, InjectedFault, Interrupt) as exc:
+    except (Boom, InjectedFault, Interrupt, TeardownFailed) as exc:
         raised = exc
+    teardown = "Pf" in h["nest"]
+    counters["histories_with_failing_pool_teardown"] += int(teardown)
+    if teardown:
+        # the failure of the teardown itself propagates (possibly instead of the body's exception); what is judged is the
+        # state after each exit (above) and after all contexts (below)
+        compare(a, top, where + " [after all contexts]", viol, -1, "all")
+        return isinstance(raised, TeardownFailed)
     expect_exc = h["exc"] is not None
     if expect_exc and raised is None:
         viol.append({"mech": "C19/injected-exception-swallowed", "detail": where})
